@@ -20,8 +20,8 @@ LEVEL_TEXT = ('Deciding tier is bounded (labelled bounded, not proved): every op
               'A deductive core IS discharged for all strings (pyvc fragments of the real dotdict_base._resolve, cvc5 strings): one iteration of the `..` loop turns '
               'P.q..back into P.back for every parent path P, single segment q and remainder; the first-segment split returns (a, b) for a.b and .a.b.')
 LEVEL_NOTE = 'T9 fragments of _resolve only (bracketed segments, eval of index expressions, the mapping operations and iteration are bounded-only). Indexes beyond a list length are outside the checked domain (membership raises IndexError there on this tree).'
-TECHNIQUE = 'bounded exhaustive + seeded random operation sequences on the real dotdict against an independent nested-dict model; deductive contracts (pyvc, z3 / cvc5 strings) on fragments of dotdict_base._resolve and on the whole methods __getattr__, __contains__, get, __setattr__ over assumed models of __getitem__ / __setitem__'
-TRUSTED = ['the nested-dict model in this file', 'lookup-form contracts: dotdict_base.__getitem__ by an assumed model (uninterpreted table over whole paths: value or KeyError); the built-in dict under super() a different table', 'store-form contract (__setattr__): dotdict_base.__setitem__ by an assumed model (records path and value; its resolution is not modelled)', 'T9 fragment contracts: the rest of _resolve (bracket balancing) is unverified', 'str.rfind of one character: exact last-occurrence characterisation']
+TECHNIQUE = 'bounded exhaustive + seeded random operation sequences on the real dotdict against an independent nested-dict model; deductive contracts (pyvc, z3 / cvc5 strings) on fragments of dotdict_base._resolve and on the whole methods __getattr__, __contains__, get, __setattr__, setdefault over assumed models of __getitem__ / __setitem__'
+TRUSTED = ['the nested-dict model in this file', 'lookup-form contracts: dotdict_base.__getitem__ by an assumed model (uninterpreted table over whole paths: value or KeyError); the built-in dict under super() a different table', 'store-form contracts (__setattr__, setdefault; the latter also __contains__ by an assumed model over the same table): dotdict_base.__setitem__ by an assumed model (records path and value; its resolution is not modelled)', 'T9 fragment contracts: the rest of _resolve (bracket balancing) is unverified', 'str.rfind of one character: exact last-occurrence characterisation']
 ASSUMPTIONS = ['keys over {a,b,c,l,m}, depth <= 3, list indexes in range']
 
 
@@ -650,5 +650,81 @@ def store_form_specs():
     return [sa]
 
 
+def _stored(st, recv):
+    """(has the contract's caller stored anything yet, last stored path, last stored value) from the ghost fields item_store maintains"""
+    from pyvc.pure import to_int
+    def fld(k):
+        v = st.heap[(recv.id, k)]
+        return v[1] if isinstance(v, tuple) else v
+    return to_int(fld('_g_nstores')) > to_int(fld('_g_n0')), fld('_g_skey'), fld('_g_sval')
+
+
+def item_lookup_after_store(eng, recv, args, kw, st, n):
+    """ASSUMED model of __getitem__ in a method that also stores: the path just stored looks up to the value stored, any other path as on entry"""
+    from pyvc.vals import IntV, ExcV
+    key = args[0]
+    if not isinstance(key, SeqV):
+        raise Unsupported('__getitem__ of %r' % (key,))
+    did, skey, sval = _stored(st, recv)
+    for s, same in eng.fork(st, z3.And(did, skey.t == key.t)):
+        if same:
+            yield s, sval
+            continue
+        for s2, ok in eng.fork(s, HASK(key.t)):
+            yield s2, (IntV(VALK(key.t)) if ok else ExcV('KeyError', 'no such path', getattr(n, 'lineno', None)))
+
+
+def contains_after_store(eng, recv, args, kw, st, n):
+    from pyvc.vals import BoolV
+    key = args[0]
+    if not isinstance(key, SeqV):
+        raise Unsupported('__contains__ of %r' % (key,))
+    did, skey, sval = _stored(st, recv)
+    yield st, BoolV(z3.Or(z3.And(did, skey.t == key.t), HASK(key.t)))
+
+
+def replay_setdefault(model, obligation):
+    import cpppo
+    for path in ('a', 'a.b', 'c', 'm.n.o', 'a.x', 'z', 'e.f', 'n'):
+        d = cpppo.dotdict()
+        d['a.b'] = 1
+        d['c'] = 2
+        d['z'] = 0            # falsy and None values are stored values too
+        d['e.f'] = None
+        d['n'] = ''
+        before = dict(d.items())
+        had = path in d
+        try:
+            got = ('val', d.setdefault(path, 99))
+        except Exception as exc:
+            got = ('raised', type(exc).__name__)
+        after = dict(d.items())
+        if had and path in before:
+            want, want_after = ('val', before[path]), before
+        elif had:
+            continue                                       # an interior level: returned as a sub-tree
+        else:
+            want, want_after = ('val', 99), dict(before, **{path: 99})
+        if got != want or after != want_after:
+            return dict(confirmed=True, function='cpppo.dotdict.setdefault', input='tree %r, setdefault(%r, 99)' % (before, path), observed='%r, tree %r' % (got, after),
+                        required='%r, tree %r' % (want, want_after))
+    return dict(confirmed=False)
+
+
+def setdefault_spec():
+    from pyvc.vals import BoolV, IntV
+    funcs = dict(has=lambda pe, k: BoolV(HASK(k.t)), val=lambda pe, k: IntV(VALK(k.t)))
+    callees = {'__getitem__': item_lookup_after_store, 'dotdict_base.__getitem__': item_lookup_after_store,
+               '__contains__': contains_after_store, 'dotdict_base.__contains__': contains_after_store,
+               '__setitem__': item_store, 'dotdict_base.__setitem__': item_store}
+    return Spec('dotdict_base.setdefault', (F, 'dotdict_base.setdefault'), params={'key': 'Str', 'default': 'Int'}, cls_name='dotdict_base',
+                fields={'_g_nstores': 'Int', '_g_n0': 'Int', '_g_skey': 'Str', '_g_sval': 'Int'}, requires='self._g_n0 == self._g_nstores',
+                ensures=[('the stored value if the path is held, else the default', 'result == (val(key) if has(key) else default)'),
+                         ('a path the tree holds is left alone', 'implies(has(key), self._g_nstores == old(self._g_nstores))'),
+                         ('an absent path receives the default, once', 'implies(not has(key), self._g_nstores == old(self._g_nstores) + 1 and self._g_skey == key and self._g_sval == default)')],
+                raises={}, modifies=['self._g_nstores', 'self._g_skey', 'self._g_sval'], callees=callees, hints=dict(funcs=funcs), replay=replay_setdefault,
+                note='whole method; __contains__ / __getitem__ / __setitem__ by assumed models over one table of whole paths (a stored path then looks up to what was stored); ghost fields _g_* exist only in the contract')
+
+
 def contracts(repo):
-    return resolve_fragments() + lookup_form_specs() + store_form_specs()
+    return resolve_fragments() + lookup_form_specs() + store_form_specs() + [setdefault_spec()]
